@@ -26,6 +26,7 @@ H = "harness_wal"
 R = "walrun"
 JOBS = 8
 FINDING = "record-type-byte"
+FINDING2 = "record-data-length-byte"
 TIMES = collections.Counter()
 
 
@@ -96,7 +97,9 @@ def oracle_verdict(o):
         return None
     if bad:
         if o.get("kind") == "M" and o.get("part") == "type":
-            return "known"
+            return "known:" + FINDING
+        if o.get("kind") == "M" and o.get("part") == "data_len":
+            return "known:" + FINDING2
         if o.get("kind") == "M":
             return "corrupted byte (%s of record %s, type %s) returned as valid data" % (o.get("part"), o.get("rec"), o.get("rtype"))
         return "pristine log does not read back as written"
@@ -221,9 +224,10 @@ def failing(impl, model, oracle, known_open):
             continue
         if k.startswith("R "):
             v = oracle_verdict(oracle.get(k[2:]))
-            if v == "known" and not known_open:
-                v = "corrupted record type byte returned as valid data (finding not listed as open)"
-            if v and v not in ("known", "coincidence"):
+            if v and v.startswith("known:") and v[6:] not in known_open:
+                v = "corrupted %s returned as valid data (finding %s not listed as open)" % (
+                    "record type byte" if v[6:] == FINDING else "data-length byte", v[6:])
+            if v and not v.startswith("known:") and v != "coincidence":
                 out.append((k, "bad", v))
     return out
 
@@ -666,9 +670,16 @@ MUT M 0 2 9 3 0 0
 """
 
 
-def replay_witness(d):
+# the log of theorem C16_data_length_byte_refuted: metadata "ab" + a CRC-neutral unknown field;
+# the data-length byte of the metadata record (offset 17 of its frame) is changed from 7 to 2
+WITNESS2_SCRIPT = """WAL w0 4096 x616225270c0be4
+MUT M -1 1 17 2 0 0
+"""
+
+
+def replay_witness(d, script=None):
     """Replays the Coq witness on the real WAL. Returns (text, fabricated: bool)."""
-    (d / "witness.script").write_text(WITNESS_SCRIPT)
+    (d / "witness.script").write_text(script or WITNESS_SCRIPT)
     rc, out = lib.sh("%s script witness.script witness.cases" % (lib.BUILD / H), cwd=d, timeout=120,
                      extra_env={"VERIF_SCRATCH_ROOT": str(d)})
     if rc != 0:
@@ -730,7 +741,7 @@ def do_replay(ctx, known_open):
 # ----------------------------------------------------------------------------- main
 
 def run(ctx):
-    known_open = any(k["kind"] == "open" and k["id"] == FINDING for k in lib.known_findings(PID))
+    known_open = frozenset(k["id"] for k in lib.known_findings(PID) if k["kind"] == "open")
     berr = build()
     if ctx.replay:
         if berr:
@@ -809,8 +820,10 @@ def run(ctx):
                 if kind in ("READ", "K") or "err:" in v or (kind == "Z" and "repair" in v):
                     stats["nontrivial"] += 1
                 ov = oracle_verdict(o)
-                if ov == "known":
+                if ov == "known:" + FINDING:
                     stats["type_byte_returned_as_valid"] += 1
+                elif ov == "known:" + FINDING2:
+                    stats["data_length_byte_returned_as_valid"] += 1
                 elif ov == "coincidence":
                     stats["crc_coincidence_outside_side_condition"] += 1
                 if kind == "Z" and o.get("nocoin") == "1":
@@ -852,16 +865,19 @@ def run(ctx):
                 if res["cases"]:
                     samples.append(dict(case=res["cases"][-1][:160], result=res["impl"][-1][:120]))
         # ---- 4. the witness of the open finding, replayed on the real code
-        wtext, fabricated, winfo = replay_witness(d)
-        stats["witness_fabricated_hardstate"] = 1 if fabricated else 0
-        if known_open and fabricated:
-            pass
-        elif known_open and not fabricated and not reported:
-            # the finding is listed but the witness no longer reproduces: tell, do not alarm
-            ctx.notes.append("witness of %s no longer reproduces: %s" % (FINDING, wtext))
-        elif fabricated and not known_open and not reported:
-            fail(dict(kind="wal", category="bad", why="record type byte 2->3 returns a fabricated HardState as valid data",
-                      cases=(d / "witness.cases").read_text(), **(winfo or {})))
+        for fid, script, key, what in (
+                (FINDING, WITNESS_SCRIPT, "witness_fabricated_hardstate", "record type byte 2->3 returns a fabricated HardState as valid data"),
+                (FINDING2, WITNESS2_SCRIPT, "witness_modified_metadata", "data-length byte 7->2 returns modified metadata as valid data")):
+            wtext, fabricated, winfo = replay_witness(d, script)
+            stats[key] = 1 if fabricated else 0
+            if fid in known_open and fabricated:
+                pass
+            elif fid in known_open and not fabricated and not reported:
+                # the finding is listed but the witness no longer reproduces: tell, do not alarm
+                ctx.notes.append("witness of %s no longer reproduces: %s" % (fid, wtext))
+            elif fabricated and fid not in known_open and not reported:
+                fail(dict(kind="wal", category="bad", why=what,
+                          cases=(d / "witness.cases").read_text(), **(winfo or {})))
 
     if broken and not reported:
         lib.violation(PID, dict(kind="tie-broken", what=broken), found_input=False)
@@ -873,6 +889,9 @@ def run(ctx):
             if kf["id"] == FINDING:
                 extra = " [this run: %d type-byte corruptions returned as valid data; witness replayed on the real WAL: %s]" % (
                     stats["type_byte_returned_as_valid"], "fabricated HardState returned with err=nil" if stats["witness_fabricated_hardstate"] else "not reproduced")
+            if kf["id"] == FINDING2:
+                extra = " [this run: %d data-length-byte corruptions returned as valid data; witness replayed on the real WAL: %s]" % (
+                    stats["data_length_byte_returned_as_valid"], "modified metadata returned with err=nil" if stats["witness_modified_metadata"] else "not reproduced")
             print("KNOWN-FINDING: property=%s %s %s%s" % (PID, kf["id"], kf["text"], extra))
     for n in ctx.notes:
         print("note:", n)
